@@ -30,16 +30,19 @@ static const double AW = 6378137.0, FW = 1 / 298.257223563;
 static const double SENT = -12345.678;            // sentinel for outputs that must stay untouched
 
 // ------------------------------------------------------------------ calibrated round-off bounds
-// (README "Tolerances": 4 x the worst error observed on the unchanged tree, at least 16; unit U defined at the use
-// site; worst/headroom reported through ctx.worst).  Frozen literals:
-static const double K_FLAGS = 16;    // relations between the four (reverse, sign) answers, unit ulp(A0)       (observed <= 1)
-static const double K_ROT   = 16;    // cyclic rotation, unit nE*eps*(A0/2 + sum|S12|)                           (observed <= 0.5)
-static const double K_REV   = 16;    // reversal of point-only polygons                                          (observed <= 1.1)
-static const double K_SHIFT = 16;    // longitude shifts (plus the exactly computed effect of rounding lon + c)  (observed <= 0.6)
-static const double K_DISP  = 8;     // multiple of the first-order effect of the known vertex displacements under lon + c   (observed <= 1.3)
-static const double K_CUT   = 16;    // diagonal additivity                                                       (observed <= 0.6)
-static const double K_TEST  = 16;    // Test* (plain double sums) against Add-then-Compute                        (observed <= 0.7)
-static const double K_REFSUM = 16;   // reference (exact sums) against Accumulator sums in the canonical state   (observed <= 0.6)
+// README "Tolerances": where the documentation only says "round-off", the bound is K x U with U = nE * eps * (scale of the
+// accumulated sums) [nE = number of edges; area scale A0/2 + sum|S12|, perimeter scale sum|s12|] and K >= 4 x the worst
+// value observed on the unchanged tree over the thorough lattice, at least 16.  Frozen literals (observed worst in the
+// same unit in parentheses); the worst err/tol of every predicate is reported through ctx.worst.
+static const double K_FLAGS = 16;    // relations between the four (reverse, sign) answers, unit ulp(A0)                  (0.5)
+static const double K_ROT   = 16;    // cyclic rotation                                                                     (0.34)
+static const double K_REV   = 16;    // reversal (with direct edges the Appendix-B tolerance is added)                      (0.43)
+static const double K_SHIFT = 16;    // longitude shifts, round-off part                                                    (< 3)
+static const double K_DISP  = 8;     // longitude shifts: multiple of the first-order effect of the exactly known vertex
+                                     // displacements caused by rounding lon + c                                            (1.3)
+static const double K_CUT   = 16;    // diagonal additivity                                                                 (0.22)
+static const double K_TEST  = 16;    // Test* (plain double sums) against Add-then-Compute                                  (0.41)
+static const double K_REFSUM = 16;   // Accumulator sums in the canonical state against the exact sums of the model       (1e-17)
 
 // ------------------------------------------------------------------ operations
 struct GOp { char kind; double a, b; };           // 'P' lat lon | 'E' azi s | 'C'
@@ -668,6 +671,7 @@ template <class G> struct Explorer {
     auto successor = [&](const State& s, int i, State& out, bool checks) -> bool {
       std::vector<GOp> hops; for (uint8_t k : s.hist) hops.push_back(OPS[k]); hops.push_back(OPS[i]);
       PA p = build(hops);
+      if (!checks) --n_traces;                                // bookkeeping replay of a state owned by another shard
       out.hist = s.hist; out.hist.push_back((uint8_t)i);
       out.key = canon(p);
       if (OPS[i].kind == 'C') out.eff.clear();
